@@ -20,6 +20,9 @@ CLOCKD = ("clock", "disk", 15, 150, 40, 80)
 EXPIRY = ("expiry", "mem", 25, 250, 25, 50)
 EXPIRYD = ("expiry", "disk", 10, 100, 25, 50)
 
+SUBDOC = ("subdoc", "mem", 40, 400, 40, 80)
+SUBDOCD = ("subdoc", "disk", 12, 120, 40, 80)
+
 ROW = ["row", "row.v", "row.cas", "row.exp", "row.json", "row.x", "row.tomb", "row.rev"]
 
 PROPS = {
@@ -50,6 +53,8 @@ PROPS = {
                 proj=P(rb=["row", "row.v", "row.exp", "row.tomb", "ge"], ev=["k", "op", "exp"], results=True,
                        ops={"expstate", "fire", "restart", "touch", "gat"}),
                 what="stored expiries, the expiry manager's next-fire time after every operation, sweeps at scripted times, reopen"),
+    "C18": dict(modules=["Rosmar.Properties.C18"], slices=[SUBDOC, SUBDOCD], proj=V.proj_all,
+                what="WriteSubDoc / SubdocInsert / GetSubDocRaw over object documents, dotted paths of every kind, CAS classes"),
     "C17": dict(modules=["Rosmar.Properties.C17"], slices=[KV, FEEDS, MULTI],
                 proj=P(rb=["row", "row.rev", "gwx"], ev=["k", "rev", "cas"], results=False),
                 what="revSeqNo in the row, $document / $document.revid, live and backfill RevNo"),
